@@ -15,9 +15,9 @@ func simosRemove(path string) error { return simos.Remove(path) }
 
 // HelperCall describes a trim/compact helper invocation for the C15/C16 oracles.
 type HelperCall struct {
-	Kind    string // trim_off, trim_cnt, trim_size, trim_age, cmp_upd, cmp_del
-	Variant int64  // 0 single-segment, 1 Multi, 2 MultiOffsets
-	Bound   int64  // offset / count / size / time (µs)
+	Kind       string // trim_off, trim_cnt, trim_size, trim_age, cmp_upd, cmp_del
+	Variant    int64  // 0 single-segment, 1 Multi, 2 MultiOffsets
+	Bound      int64  // offset / count / size / time (µs)
 	StatBefore klevdb.Stats
 	StatErr    error
 }
